@@ -398,22 +398,20 @@ class _StatementCompiler(StatementVisitor, _Compiler):
         self._emit_switch(gen_test, stmt.cases, case_handler)
 
     def emit_format(self, format):
-        format_string = []
-        args = []
+        # Each chunk is formatted separately with the `format()` builtin; rebuilding a format string is not
+        # possible in general because a format specification may use `{` or `}` as the fill character.
+        parts = []
         for chunk in format._chunks:
             if isinstance(chunk, str):
-                format_string.append(chunk.replace("{", "{{").replace("}", "}}"))
+                parts.append(repr(chunk))
             else:
                 value, format_desc = chunk
                 value = self.rhs.sign(value)
                 if format_desc.endswith("s"):
                     format_desc = format_desc[:-1]
                     value = f"value_to_string({value})"
-                format_string.append(f"{{:{format_desc}}}")
-                args.append(value)
-        format_string = "".join(format_string)
-        args = ", ".join(args)
-        return f"{format_string!r}.format({args})"
+                parts.append(f"format({value}, {format_desc!r})")
+        return "''.join((" + "".join(f"{part}, " for part in parts) + "))"
 
     def on_Print(self, stmt):
         self.emitter.append(f"print({self.emit_format(stmt.message)}, end='')")
